@@ -220,10 +220,7 @@ type flow struct {
 	syms  []*symbol.Symbol
 	agent *runtime.Agent // nil: detached
 	gates *gates
-	// per process: join in-ports whose open hooks (the agent's included) have all run
-	hookedMu sync.Mutex
-	hooked   map[*process.Process]int
-	loads    []int // Load calls seen per symbol (through a counting load hook)
+	loads []int // Load calls seen per symbol (through a counting load hook)
 }
 
 type countHook struct {
@@ -242,7 +239,7 @@ func (h *countHook) Load(sb *symbol.Symbol) error {
 // build creates the symbols inside a real symbol.Table; the agent
 // (when given) is attached through the table's load / unload hooks, as cmd/pkg/cli/start.go does.
 func build(fs flowSpec, agent *runtime.Agent) (*flow, error) {
-	f := &flow{spec: fs, agent: agent, loads: make([]int, len(fs.nodes)), gates: newGates(), hooked: map[*process.Process]int{}}
+	f := &flow{spec: fs, agent: agent, loads: make([]int, len(fs.nodes)), gates: newGates()}
 	opt := symbol.TableOption{}
 	if agent != nil {
 		opt.LoadHooks = append(opt.LoadHooks, agent)
@@ -262,15 +259,8 @@ func build(fs flowSpec, agent *runtime.Agent) (*flow, error) {
 			Node: mkNode(ns, i, f.gates),
 		}
 		if ns.kind == "join" { // materialise both in-ports before anything links to in[1] only
-			for _, name := range []string{"in[0]", "in[1]"} {
-				// added before the agent is loaded, hence run after the agent's open hook (newest first):
-				// when it has run for a process, the agent's packet hooks are on that process's reader
-				sb.In(name).AddOpenHook(port.OpenHookFunc(func(proc *process.Process) {
-					f.hookedMu.Lock()
-					f.hooked[proc]++
-					f.hookedMu.Unlock()
-				}))
-			}
+			sb.In("in[0]")
+			sb.In("in[1]")
 		}
 		f.syms = append(f.syms, sb)
 	}
@@ -494,24 +484,6 @@ func openSession(f *flow) *session {
 				s.events <- sinkEv{i, p}
 			}
 		}()
-	}
-	// A ManyToOne node's forward goroutine opens ALL its in-ports; the upstream writer's Open would
-	// find such a reader in the port's map while that goroutine is still inside the open hooks, and a
-	// first packet could pass before the agent's packet hooks are on (its answer would be seen: an
-	// orphan frame, every later frame of the port shifted – observed once in ~10^4 cases, reported as
-	// a finding). The harness opens these in-ports itself first, so that the hooks are installed here.
-	joins := f.spec.indices("join")
-	for _, i := range joins {
-		f.syms[i].In("in[0]").Open(s.proc)
-		f.syms[i].In("in[1]").Open(s.proc)
-	}
-	for deadline := time.Now().Add(watchdog); time.Now().Before(deadline); time.Sleep(20 * time.Microsecond) {
-		f.hookedMu.Lock()
-		n := f.hooked[s.proc]
-		f.hookedMu.Unlock()
-		if n >= 2*len(joins) {
-			break
-		}
 	}
 	for _, i := range f.spec.indices("src") {
 		s.writers[i] = f.syms[i].Out("out").Open(s.proc)
